@@ -45,10 +45,30 @@ const BACKSLASH: &[&str] = &["a\\b", "C:\\data\\in", "\\\\server\\share", "\\n",
 const QUOTE: &[&str] = &["say \"hi\"", "\"", "\"\"", "a\")\nstream Evil = Tick", "a\")\nstream Evil = Tick # ", "'single'", "a\"b"];
 const NEWLINE: &[&str] = &["line1\nline2", "a\n  b", "cr\r\nlf", "\n", "end\n"];
 
-/// A value that cannot be written as a VPL string literal (the language has no escape
-/// processing): contains `"`, a line break, or ends with a backslash.
+/// A value that cannot be written between double quotes as a VPL string literal reading
+/// back as itself (the language has no escape processing; a backslash makes the lexer skip
+/// the next character and both stay in the value): a line break, a double quote that is not
+/// skipped by a preceding backslash, or a dangling backslash at the end.  Harness-side model
+/// (written independently of `is_representable_param_value`).
 fn unrepresentable(v: &str) -> bool {
-    v.contains('"') || v.contains('\n') || v.contains('\r') || v.ends_with('\\')
+    if v.contains('\n') || v.contains('\r') {
+        return true;
+    }
+    let cs: Vec<char> = v.chars().collect();
+    let mut i = 0;
+    while i < cs.len() {
+        if cs[i] == '\\' {
+            if i + 1 >= cs.len() {
+                return true;
+            }
+            i += 2;
+        } else if cs[i] == '"' {
+            return true;
+        } else {
+            i += 1;
+        }
+    }
+    false
 }
 
 fn value(t: &mut Tape, allow_unrepresentable: bool) -> String {
@@ -64,7 +84,7 @@ fn value(t: &mut Tape, allow_unrepresentable: bool) -> String {
     if !allow_unrepresentable && unrepresentable(&v) {
         // excluded class (known finding): keep the flavour, drop the unrepresentable characters
         let mut s: String = v.chars().filter(|c| *c != '"' && *c != '\n' && *c != '\r').collect();
-        while s.ends_with('\\') {
+        while unrepresentable(&s) {
             s.pop();
         }
         return s;
@@ -233,9 +253,23 @@ fn judge(c: &Case) -> Outcome {
     let mut map: HashMap<String, ClusterConnector> = HashMap::new();
     for k in &c.connectors {
         let cc = ClusterConnector { name: k.name.clone(), connector_type: k.ctype.clone(), params: k.params.iter().cloned().collect(), description: None };
+        let ident = |k: &str| !k.is_empty() && !k.as_bytes()[0].is_ascii_digit() && k.bytes().all(|b| b.is_ascii_alphanumeric() || b == b'_');
+        let bad_value = k.params.iter().any(|(_, v)| unrepresentable(v));
+        let bad_key = k.params.iter().any(|(p, _)| !ident(p));
         if validate_connector(&cc).is_err() {
-            return Outcome::discard("connector rejected by validate_connector");
+            // outside the property's domain.  Expected exactly for definitions that cannot be
+            // rendered as a declaration; anything else is only counted.
+            return if bad_value {
+                Outcome::pass().nontrivial(true).class("validation_rejects:unrepresentable_value")
+            } else if bad_key {
+                Outcome::pass().class("validation_rejects:non_identifier_key")
+            } else {
+                Outcome::discard("connector rejected by validate_connector for another reason")
+            };
         }
+        // accepted by validation: in the domain, whatever the harness model says about its
+        // values -- the full oracle below decides (an accepted unrepresentable value that
+        // breaks the injected source is a violation)
         if k.params.iter().map(|(p, _)| p).collect::<std::collections::BTreeSet<_>>().len() != k.params.len() {
             return Outcome::discard("duplicate parameter key");
         }
@@ -319,9 +353,10 @@ fn judge(c: &Case) -> Outcome {
 fn main() {
     let check = Check::new("C39", "exploration");
     check.rule("1-3 cluster connectors (valid names incl. keyword-like ones, all 5 types with their required parameter, 0-4 further parameters with identifier keys) whose values come from a hostile pool (plain, numeric-looking incl. leading zeros/signs/exponents/inf/nan/overflow, empty, Unicode, backslashes), injected into generated pipeline sources that reference a subset of them via .from()/.to() (also declared inline, unreferenced connectors, unrelated statements, missing final newline); oracle: injected source parses, statements = injected declarations + original statements modulo spans, engine.get_connector(name) has exactly the stored address/topic/properties; non-trivial = >=1 injected connector with a numeric-looking or backslash value (distinct by case)");
-    check.assume("only connectors accepted by validate_connector; at most one of url/host/brokers/servers per connector (the runtime folds them into one address field); no `client_id_mode` parameter (documented source rewriting, outside this property); values that cannot be written as a VPL string (contain a double quote or line break, or end in a backslash) are a recorded finding and generated only in the `unrepresentable_values` sub-check");
+    check.assume("only connectors accepted by validate_connector; at most one of url/host/brokers/servers per connector (the runtime folds them into one address field); no `client_id_mode` parameter (documented source rewriting, outside this property); values that cannot be written as a VPL string (line break, unskipped double quote, dangling backslash) keep being generated in the `unrepresentable_values` sub-check: validation must reject them, and if it accepts one the full oracle applies");
     check.explore("inject", || proptest::collection::vec(any::<u16>(), 0..200).prop_map(|tape| gen_case(&tape, false)), 5_000, 80_000, judge);
-    // the excluded class (kept small; every failure here must carry the known signature class)
+    // values that cannot be written as a VPL literal: validation has to keep them out of the
+    // domain; if it lets one through, the oracle above judges the injected source as usual
     check.explore("unrepresentable_values", || proptest::collection::vec(any::<u16>(), 0..200).prop_map(|tape| gen_case(&tape, true)), 300, 3_000, |c: &Case| {
         let o = judge(c);
         o.class("sub:unrepresentable_pool")
